@@ -376,6 +376,10 @@ def render_var(st: Style, v: Var, scope_kind: str, allow_separate=True) -> List[
     declname = v.name
     text = v.ts.render(st)
     body = declname + (v.dim if (v.dim and name_dim) else "")
+    if v.ts.base == "character" and v.ts.kind is None and v.ts.len and not st.canonical and st.flip(0.2):
+        # the length written with the entity: character :: a(3)*10, b*(*), c*(n)
+        text = st.kw("character")
+        body += "*" + (v.ts.len if v.ts.len.isdigit() else "(" + v.ts.len + ")")
     if v.init is not None and not param_sep:
         body += (" => " if v.points else " = ") + v.init
     if out_attrs:
@@ -532,8 +536,15 @@ def render_dtype(st: Style, t: DType, scope_kind: str) -> List[Stmt]:
                 a = [st.kw("deferred")] + [st.kw(x) for x in b.attrs] + ([st.kw(b.access)] if b.access else [])
                 if not st.canonical:
                     st.rng.shuffle(a)
-                out.append(Stmt(st.kw("procedure") + st.paren(st.nm(b.deferred_iface)) + ", " + ", ".join(a) + " :: " + b.name, list(b.doc)))
-                i += 1
+                group = [b]
+                if t.multi_binding_stmt:
+                    j = i + 1
+                    while (j < len(bs) and bs[j].deferred_iface and bs[j].deferred_iface.lower() == b.deferred_iface.lower() and bs[j].attrs == b.attrs
+                           and bs[j].access == b.access and not bs[j].doc and not b.doc):
+                        group.append(bs[j])
+                        j += 1
+                out.append(Stmt(st.kw("procedure") + st.paren(st.nm(b.deferred_iface)) + ", " + ", ".join(a) + " :: " + ", ".join(g.name for g in group), list(b.doc)))
+                i += len(group)
                 continue
             # plain bindings; maybe several in one statement
             group = [b]
